@@ -4,18 +4,18 @@ T == JsonDeserialize(IOEnv.TRACES)
 VARIABLES tid, l, envbad, stall
 vars == <<tid, l, envbad, stall, open, incyc, served, waitc, owner, age, ageu, tofired, seen, obs>>
 C == T[tid].cfg
-Init == /\ tid \in 1..Len(T) /\ l = 1 /\ envbad = FALSE /\ stall = 0 /\ CInit
+Init == /\ tid \in 1..Len(T) /\ l = 1 /\ envbad = FALSE /\ stall = [i \in 1..MAXN |-> 0] /\ CInit
 Next ==
   /\ l <= Len(T[tid].ev)
   /\ LET iv == T[tid].ev[l][1]
          o  == T[tid].ev[l][2]
      IN /\ envbad' = (envbad \/ iv \notin Inputs(C))
         /\ CStep(C, iv, o)
-        \* bounded form of Served/Recovers for replayed lassos: consecutive cycles in which some
-        \* master keeps waiting although every slave cooperates
-        /\ stall' = IF (\E i \in 1..MAXN : ~obs'.notwaiting[i]) /\ (\A j \in 1..MAXN : obs'.slaveok[j] \/ C.faulty = 1)
-                    THEN stall + 1 ELSE 0
+        \* bounded form of Served/Recovers for replayed lassos (TLC has established the premises on the lasso; the
+        \* replay, prefix + loop unrolled, confirms that the real netlist leaves the same master waiting throughout):
+        \* per master, consecutive cycles in which its request stays unterminated
+        /\ stall' = [i \in 1..MAXN |-> IF ~obs'.notwaiting[i] THEN stall[i] + 1 ELSE 0]
   /\ l' = l + 1 /\ tid' = tid
 EnvLegal == ~envbad
-BoundedService == stall < C.stallbound
+BoundedService == \A i \in 1..MAXN : stall[i] < C.stallbound
 =============================================================================
